@@ -3,6 +3,7 @@ from ..rules import liveness as L
 from ..rules import contain as C
 from ..rules import broken as B
 from ..rules import routing as Rt
+from ..rules import scenario as SC
 
 EXPLANATION = (
     "Static analysis (points-to + CFG + lock context). Decides necessary conditions of deadlock freedom, each "
@@ -37,5 +38,11 @@ def run(e, R, tier):
         B.r_broken_order,
         B.r_mgr_total,
         Rt.r_once,
+        SC.r_scn_wakeprim,
+        SC.r_scn_worker,
+        SC.r_scn_manager,
+        SC.r_scn_result,
+        SC.r_scn_feeder,
+        SC.r_scn_start,
     ])
     R.trust("stdlib facts: mp.Queue.put starts the feeder thread; Thread.start runs run(); Executor.map calls submit")
